@@ -133,6 +133,28 @@ def run(cx):
             cx.guard('C19.R1', [s], {'depth-not-exhausted': r'^!DepthTracker::is_exhausted\('}, fn=g)
     cx.floor('C19.R1', n_guarded, 1, 'DepthTracker::nest call sites')
 
+    # ---------------------------------------------------------------- R2 the name-server pool's retry loop is bounded
+    # every upstream exchange of the recursor and the stub resolver goes through PoolState::try_send, whose loop re-queues servers
+    # (truncated -> TCP, case mismatch, busy back-off).  Its only unconditional bound is the lookup deadline: every cycle of the
+    # loop that is not an inner finite drain (pop_front / FuturesUnordered::next) or an await suspension crosses the
+    # `now >= deadline` test, and the deadline is computed once (a re-armed deadline lets a server that always truncates spin forever)
+    import C18
+    import loops
+    ts = cx.fn('C19.R2', 'hickory_resolver::name_server_pool::PoolState::try_send::{closure#0}')
+    if ts:
+        test = set()
+        for bi in range(len(ts.blocks)):
+            for t_, ps in (ts.edge_props(bi) or {}).items():
+                if any(re.search('^!?' + C18.PAST + '$', shorten(p_)) for p_ in ps):
+                    test.add(bi)
+        cx.floor('C19.R2', len(test), 1, 'deadline tests in PoolState::try_send')
+        inner = {bi for bi, c_, t_ in cx.prog.calls_of(ts) if any(re.search(r'VecDeque<T, A>::pop_front$|VecDeque::pop_front$|StreamExt::next$|Iterator>::next$|Iterator::next$', x) for x in ts.callee_names(c_))}
+        ys = {bi for bi, b_ in enumerate(ts.blocks) if b_['t'][0] == 'yield'}
+        bad = loops.cycles_without(cx, ts, test | inner | ys)
+        cx.check('C19.R2', not bad, ts.path, 'loops', 'every-retry-cycle-crosses-the-deadline-test',
+                 'blocks on a cycle that avoids the deadline test at lines ' + ','.join(str(x) for x in sorted({ts.span(b)[0] for b in bad})[:8]), f'{ts.file}:{ts.line}')
+        cx.single_def('C19.R2', ts, 'deadline-computed-once-per-lookup', '^' + C18.DEADLINE + '$')
+
     # ---------------------------------------------------------------- H helper semantics the guards above rely on (rules/helpers.py)
     helpers.check(cx, 'C19.H', ['Name::zone_of', 'Name::base_name', 'Name::trim_to'])
 
